@@ -4,6 +4,8 @@ p=$1; shift
 cd /repo || exit 2
 if ! git apply --check "$p" 2>/dev/null; then echo "PATCH-DOES-NOT-APPLY $p"; exit 2; fi
 git apply "$p"
+# evidence files must only ever come from the unchanged tree: keep them aside while the checks run on the patched one
+ev=$(mktemp -d /root/scratch/evidence-keep.XXXXXX); cp -a /verif/evidence/. "$ev"/
 for id in "$@"; do
   out=$(cd /verif && VERIF_SEED=${VERIF_SEED:-0} timeout 600 ./check $id ${TIER:-quick} 2>&1); rc=$?
   if [ $rc -eq 1 ]; then echo "CAUGHT $id $(basename $p): $(echo "$out" | grep -m1 'witness mechanism' | cut -c1-160)";
@@ -11,3 +13,4 @@ for id in "$@"; do
   else echo "INCONCLUSIVE($rc) $id $(basename $p): $(echo "$out" | grep -m1 INCONCLUSIVE | cut -c1-200)"; fi
 done
 git checkout -- . ; git status --short | head -3
+cp -a "$ev"/. /verif/evidence/; rm -rf "$ev"
